@@ -155,6 +155,9 @@ fn main() {
         if p["settings"]["legacy_api"] == json!(true) {
             bump("api:process_file", &mut classes);
         }
+        if p["settings"]["stale_rule_ids_map"] == json!(true) {
+            bump("api:stale_rule_ids_map", &mut classes);
+        }
         if p["settings"]["in_src"].is_string() {
             bump("api:in_src_dir", &mut classes);
         }
